@@ -79,10 +79,12 @@ func (lc *liveConn) begin() (par, nested bool, end func()) {
 }
 
 func (lc *liveConn) ev(k, v, id string) {
+	// the incarnation is compared and the event appended in one step (the restart operation bumps the incarnation and logs
+	// its start under the same lock): an event logged after "OpRestart" is never taken for one of the new incarnation
 	lc.n.mu.Lock()
 	old := lc.gen != lc.n.gen
-	lc.n.mu.Unlock()
 	lc.n.l.addc(lc.n.name, lc.id, k, v, id, old)
+	lc.n.mu.Unlock()
 }
 
 // entry / exit of an entry point; "par" marks an entry that started while another one was in progress
